@@ -45,7 +45,10 @@ Inductive dkind :=
 | DDownload (st : nat)                  (* 0 never 1 if-possible 2 always 3 later *)
 | DLocateLocal (verify_flag : bool)
 | DLocateRemote (verify_flag : bool)
-| DPull (verify_flag verify_later : bool).
+| DPull (verify_flag verify_later : bool)
+| DManager (st : nat)                   (* downloader.Manager{Verify: st}.Update, one dependency *)
+| DDepUpdate (verify_flag : bool)       (* helm dependency update [--verify] *)
+| DDepBuild (verify_flag : bool).       (* helm dependency build [--verify] from a lock file *)
 
 Record dcheck := mkDl {
   d_kind : dkind;
@@ -121,6 +124,12 @@ Section Run.
         match m_download (locate_strategy f) d with DErr => d_err d | DOk _ => negb (d_err d) end
     | DPull f l =>
         match m_download (pull_strategy f l) d with DErr => d_err d | DOk _ => negb (d_err d) end
+    | DManager n =>
+        match m_download (strat n) d with DErr => d_err d | DOk _ => negb (d_err d) end
+    | DDepUpdate f =>
+        match m_download (dep_update_strategy f) d with DErr => d_err d | DOk _ => negb (d_err d) end
+    | DDepBuild f =>
+        match m_download (dep_build_strategy f) d with DErr => d_err d | DOk _ => negb (d_err d) end
     end.
 
   (* the model's canon / split against the library's Bytes / bytes.Split *)
